@@ -1,5 +1,5 @@
 (* C05 property theorems: statements + `exact lemma` only. *)
-From CJ Require Import Common.Base C05.Model C05.Proofs C05.Sched C05.ModelTcp C05.ProofsTcp.
+From CJ Require Import Common.Base C05.Model C05.Proofs C05.Sched C05.ModelTcp C05.ProofsTcp C05.ModelProxy C05.ProofsProxy.
 
 (* One direction of the relay delivers exactly the three-line specification [ideal]: the data of
    every Read up to and including the first one that carries an error, cut only by the first
@@ -221,3 +221,57 @@ Theorem C05_relay_tcp_client_peer_receives_counted :
     s_ph f = Ended PEof.
 Proof. exact relay_tcp_client_peer_gets_counted. Qed.
 Print Assumptions C05_relay_tcp_client_peer_receives_counted.
+
+(* ---------------- Proxy() around the relay: dial step, header step, shared statistics (C05/ModelProxy.v) ---------------- *)
+
+(* the session gauge is back at its previous value on EVERY path through Proxy: a failing dial, a
+   failing PROXY header, and the relay under every schedule with every script *)
+Theorem C05_proxy_gauge_restored_on_every_path :
+  forall g i, ps_sessions (fst (proxy g i)) = ps_sessions g.
+Proof. exact proxy_gauge_restored. Qed.
+Print Assumptions C05_proxy_gauge_restored_on_every_path.
+
+(* a relayed tunnel reports exactly what it delivered, in both directions, has closed both
+   connections (a full Close on each) and has printed its summary *)
+Theorem C05_proxy_relayed_tunnel_reports_delivered :
+  forall g i, let o := snd (proxy g i) in
+    x_exit o = XRelayed ->
+    x_bytes_up o = N.of_nat (length (x_up o)) /\ x_bytes_down o = N.of_nat (length (x_down o)) /\
+    x_client_closed o = true /\ x_covert_closed o = true /\ x_printed o = true /\
+    In CClose (x_opsA o) /\ In CClose (x_opsB o).
+Proof. exact proxy_relayed_faithful. Qed.
+Print Assumptions C05_proxy_relayed_tunnel_reports_delivered.
+
+(* the paths that relay nothing (dial failed, header failed) forward nothing and leave every
+   process-wide counter alone *)
+Theorem C05_proxy_early_exit_touches_nothing :
+  forall g i, x_exit (snd (proxy g i)) <> XRelayed ->
+    fst (proxy g i) = g /\ x_up (snd (proxy g i)) = [] /\ x_down (snd (proxy g i)) = [].
+Proof. exact proxy_no_relay_touches_nothing. Qed.
+Print Assumptions C05_proxy_early_exit_touches_nothing.
+
+(* the process-wide statistics grow by exactly what the tunnel reports (refinement of ProxyStats) *)
+Theorem C05_proxy_stats_grow_by_reported_counts :
+  forall g i, let g1 := fst (proxy g i) in let o := snd (proxy g i) in
+    x_exit o = XRelayed ->
+    ps_new_up g1 = ps_new_up g + x_bytes_up o /\ ps_new_down g1 = ps_new_down g + x_bytes_down o /\
+    ps_compl_up g1 = ps_compl_up g + x_bytes_up o /\ ps_compl_down g1 = ps_compl_down g + x_bytes_down o /\
+    ps_zero_up g1 = ps_zero_up g + b2N (x_bytes_up o =? 0) /\ ps_zero_down g1 = ps_zero_down g + b2N (x_bytes_down o =? 0) /\
+    ps_completed g1 = ps_completed g + 1.
+Proof. exact proxy_stats_additive. Qed.
+Print Assumptions C05_proxy_stats_grow_by_reported_counts.
+
+(* tunnels one after the other in one process share nothing but those counters: the k-th tunnel's
+   outcome (bytes delivered, counts, closes, error strings, shutdown calls) is that of the same tunnel
+   in a fresh process, however the earlier tunnels ended *)
+Theorem C05_tunnels_in_sequence_are_independent :
+  forall is g g' k i,
+    nth_error is k = Some i ->
+    nth_error (snd (proxy_seq g is)) k = Some (snd (proxy g' i)).
+Proof. exact proxy_seq_independent. Qed.
+Print Assumptions C05_tunnels_in_sequence_are_independent.
+
+Theorem C05_tunnels_in_sequence_restore_gauge :
+  forall is g, ps_sessions (fst (proxy_seq g is)) = ps_sessions g.
+Proof. exact proxy_seq_gauge. Qed.
+Print Assumptions C05_tunnels_in_sequence_restore_gauge.
